@@ -443,12 +443,27 @@ pub fn scenarios(tier: Tier) -> Vec<NetScenario> {
             }
         }
     }
+    // payload-only session: both sides send a payload every 100 ms tick, more often than the 250 ms keep-alive rate, so
+    // neither side ever emits a keep-alive for four time-out periods: payloads alone must keep the session alive
+    {
+        let mut cl = ClientCfg::new(1);
+        cl.timeout = 1;
+        cl.payload_ticks = (6..46).collect();
+        let mut c = SimCfg::base("payload-only traffic both ways for 4 time-outs, timeout=1s dt=100ms", vec![cl]);
+        c.dt_ms = 100;
+        c.fault_from = 9;
+        c.horizon = 40;
+        c.tail = 6;
+        c.server_payload_ticks = (6..46).collect();
+        c.fates = vec![NFate::Ok, NFate::Drop, NFate::Delay1];
+        v.push(c);
+    }
     v.into_iter().map(|cfg| NetScenario { cfg, probe: probe as fn() -> Box<dyn NetProbe> }).collect()
 }
 
 pub fn run(tier: Tier) -> i32 {
     let mut rep = Report::new("C18", tier);
-    rep.rule("M2 over the netcode world: every schedule with <= d deviations (per datagram both ways: drop/dup/delay1/delay2; attacker injection of request-typed garbage, replays of the client's own response / keep-alive / payload, forged keep-alive / payload) for scenarios: handshake at dt in {100,250,400,1000} ms, two clients, fail-over from a silent first address, client silent after connecting (timeouts 1/2/5 s) with an on-path attacker, server silent, limit raised 1->2 and lowered 2->1 at run time, token expiring while half-open, time-out disabled, keep-alive only session with coarse ticks; oracle from the harness's own delivery log: update_client disconnects iff no authentic datagram arrived for more than the token time-out (same on the client side), half-open sessions are gone once server time passes the token expiry, and after the fault-free tail every undisturbed honest client for which there is room under the current limit is connected on both sides");
+    rep.rule("M2 over the netcode world: every schedule with <= d deviations (per datagram both ways: drop/dup/delay1/delay2; attacker injection of request-typed garbage, replays of the client's own response / keep-alive / payload, forged keep-alive / payload) for scenarios: handshake at dt in {100,250,400,1000} ms, two clients, fail-over from a silent first address, client silent after connecting (timeouts 1/2/5 s) with an on-path attacker, server silent, limit raised 1->2 and lowered 2->1 at run time, token expiring while half-open, time-out disabled, keep-alive only session with coarse ticks, payload-only session (no keep-alives for four time-outs); oracle from the harness's own delivery log: update_client disconnects iff no authentic datagram arrived for more than the token time-out (same on the client side), half-open sessions are gone once server time passes the token expiry, and after the fault-free tail every undisturbed honest client for which there is room under the current limit is connected on both sides");
     rep.assume("authentic = first delivery of a genuine keep-alive / payload (or the connecting response) of the honest peer; tails are long enough for 4 handshake legs at the 250 ms send rate plus one time-out per silent address; time-outs >= 2 s in handshake-fault scenarios so that <= 3 losses cannot exhaust them");
     let sc = scenarios(tier);
     run_net_scenarios(&mut rep, "m2", &sc, tier.pick(2, 4), tier.pick(120.0, 3000.0));
